@@ -846,7 +846,7 @@ def run_batches(ctx, oracle, want, sizes, ptr_embed=True, seed_tag=0):
         b.model = o.split("\n")[:len(b.requests)]
         return b
 
-    with ThreadPoolExecutor(max_workers=min(8, len(batches))) as ex:
+    with ThreadPoolExecutor(max_workers=min(4, len(batches))) as ex:
         list(ex.map(work, batches))
     for b in batches:
         if b.error:
